@@ -263,12 +263,33 @@ func (c *Ctx) floor(rule string, got, want int) {
 // srcFuncs returns every function with a body in the repository package (incl. methods, closures, generic instances).
 func (c *Ctx) srcFuncs() []*ssa.Function {
 	var out []*ssa.Function
+	seen := map[*ssa.Function]bool{}
 	for f := range ssautil.AllFunctions(c.prog) {
 		if f.Blocks == nil {
 			continue
 		}
 		if c.inRepo(f) {
 			out = append(out, f)
+			seen[f] = true
+		}
+	}
+	// AllFunctions omits methods of unexported types that nothing in the program refers to; they are still callable
+	// by users through a value an exported constructor returns (clipperBase.AddPath via *clipper64): add every
+	// declared function and method of the package, and the closures inside them
+	var addWithAnon func(f *ssa.Function)
+	addWithAnon = func(f *ssa.Function) {
+		if f == nil || f.Blocks == nil || seen[f] {
+			return
+		}
+		seen[f] = true
+		out = append(out, f)
+		for _, a := range f.AnonFuncs {
+			addWithAnon(a)
+		}
+	}
+	for _, obj := range c.info.Defs {
+		if fo, ok := obj.(*types.Func); ok {
+			addWithAnon(c.prog.FuncValue(fo))
 		}
 	}
 	// order by (file, offset): token.Pos across files depends on the (parallel) parse order and is not stable
